@@ -6,7 +6,44 @@
 //! numbers of states and transitions do not depend on thread timing. Depth is iterated 1, 2, …,
 //! so the first counterexample is a shortest one.
 
-use crate::isolate::par_fold;
+use crate::isolate::Wire;
+use serde_json::{json, Value};
+
+/// A search state: how to reach it again (`tag` = which program / initial configuration, `hist` =
+/// action ids) and a digest of the canonical product state reached.
+#[derive(Debug, Clone, PartialEq, Eq)]
+pub struct St {
+    pub tag: u32,
+    pub hist: Vec<u8>,
+    pub digest: u64,
+}
+
+impl Wire for St {
+    fn to_value(&self) -> Value {
+        json!([self.tag, self.hist, self.digest])
+    }
+    fn from_value(v: &Value) -> St {
+        St {
+            tag: v[0].as_u64().unwrap_or(0) as u32,
+            hist: v[1].as_array().map(|a| a.iter().map(|x| x.as_u64().unwrap_or(0) as u8).collect()).unwrap_or_default(),
+            digest: v[2].as_u64().unwrap_or(0),
+        }
+    }
+}
+
+struct Level(Acc, Vec<(usize, Vec<St>)>);
+
+impl Wire for Level {
+    fn to_value(&self) -> Value {
+        json!({"acc": self.0.to_value(), "out": self.1.iter().map(|(i, c)| json!([i, c.iter().map(|s| s.to_value()).collect::<Vec<_>>()])).collect::<Vec<_>>()})
+    }
+    fn from_value(v: &Value) -> Level {
+        Level(
+            Acc::from_value(&v["acc"]),
+            v["out"].as_array().map(|a| a.iter().map(|e| (e[0].as_u64().unwrap_or(0) as usize, e[1].as_array().map(|c| c.iter().map(St::from_value).collect()).unwrap_or_default())).collect()).unwrap_or_default(),
+        )
+    }
+}
 use crate::report::Acc;
 use std::collections::HashSet;
 use std::time::Instant;
@@ -33,16 +70,17 @@ pub struct Config {
 /// records violations in `acc`, bumps `acc.evaluations` once per transition and returns the
 /// successors that are to be expanded further (successors on which the two sides disagree are
 /// reported and dropped).
-pub fn explore<S: Send + Sync>(
-    roots: Vec<S>,
+pub fn explore(
+    roots: Vec<St>,
     cfg: &Config,
-    key: impl Fn(&S) -> u64 + Sync,
-    step: impl Fn(&mut Acc, &S) -> Vec<S> + Sync,
+    env: Option<crate::isolate::Env>,
+    step: impl Fn(&mut Acc, &St) -> Vec<St> + Sync,
 ) -> (Acc, Stats) {
+    let key = |s: &St| crate::util::mix(s.digest ^ ((s.tag as u64) << 48));
     let start = Instant::now();
     let mut seen: HashSet<u64> = HashSet::new();
     let mut stats = Stats::default();
-    let mut frontier: Vec<S> = Vec::new();
+    let mut frontier: Vec<St> = Vec::new();
     for r in roots {
         if !cfg.dedup || seen.insert(key(&r)) {
             frontier.push(r);
@@ -55,17 +93,19 @@ pub fn explore<S: Send + Sync>(
         if frontier.is_empty() {
             break;
         }
-        let parts = par_fold(
+        let chunk = (frontier.len() / (crate::isolate::threads() * 8)).clamp(1, 64);
+        let parts = crate::isolate::pooled(
+            env,
             frontier.len(),
-            1,
-            || (Acc::new(), Vec::<(usize, Vec<S>)>::new()),
-            |(acc, out), i| {
-                let children = step(acc, &frontier[i]);
-                out.push((i, children));
+            chunk,
+            || Level(Acc::new(), Vec::new()),
+            |lvl: &mut Level, i| {
+                let children = step(&mut lvl.0, &frontier[i]);
+                lvl.1.push((i, children));
             },
         );
-        let mut all_children: Vec<(usize, Vec<S>)> = Vec::new();
-        for (acc, out) in parts {
+        let mut all_children: Vec<(usize, Vec<St>)> = Vec::new();
+        for Level(acc, out) in parts {
             total.merge(acc);
             all_children.extend(out);
         }
